@@ -608,6 +608,9 @@ impl<'a> Run<'a> {
                 if self.cfg.wants(Aspect::Dirty) && self.cfg.dirty {
                     self.check_dirty(op)?;
                 }
+                if self.cfg.wants(Aspect::FatCopies) && self.cfg.fatcopies {
+                    self.check_fat_copies(op)?;
+                }
                 let _ = wrote;
                 // nothing was reported, so nothing excuses the calls that follow either: judgement resumes at once
                 self.fault_hold = 0;
